@@ -134,7 +134,7 @@ theorem eval_dtor (X : Ctx p q) {sc : Fun.Term} {d : String} {ta : Fun.Tys} {as 
     (hc : Compiled q n (.dtor sc d ta as rty) c s)
     (he : EnvRel (GP p) q n (fv (.dtor sc d ta as rty)) env ρ0) (hr : CRel (GP p) q n k c ρ0)
     (hbd : BoundOn (tfvStmt s []) ρ0) (hag : AgreeOn (tfvStmt s []) ρ0 ρ) :
-    Chunk p q (R p q) true (.eval (.dtor sc d ta as rty) env k) ⟨s, ρ, out, n⟩ := by
+    Chunk p q (R p q) true true μ (.eval (.dtor sc d ta as rty) env k) ⟨s, ρ, out, n⟩ := by
   simp only [good, Bool.and_eq_true] at hg
   obtain ⟨⟨⟨⟨hps, hgps⟩, hcds⟩, hgas⟩, _⟩ := hg
   have hpf := goodPs_pureFOs p as hgas
@@ -340,7 +340,7 @@ theorem eval_dtor (X : Ctx p q) {sc : Fun.Term} {d : String} {ta : Fun.Tys} {as 
                     rw [X.cod τb]
                     simpa [ncdO] using h1
                   refine .inr ⟨_, _, .eval cl.body env' k, [], i1 + i2 + 1, _, f012,
-                    .inr ⟨none, hstep, rfl⟩, (fun _ => .inr (.inl (by intro h; cases h))),
+                    .inr ⟨none, hstep, rfl⟩, (fun _ => .inr (.inl (by intro h; cases h))), (fun _ => .inl (by omega)),
                     (hc1.trans hc2).trans (.one hcore), by simp, ?_⟩
                   refine SRel.eval (c := .var .cns ⟨(freshCovar sa).1, 0⟩ (compileTy τb)) (ρ0 := ρ0n)
                     hgb ?_ he' ?_ ?_ ?_
